@@ -24,7 +24,7 @@ import sx
 from common import (COQ, Verdict, proof_stage, repo_blob_ids, write_evidence, TRUSTED_BASE)
 
 PROP = 'C17'
-PROOF_FILES = [f for f in ['proofs/C17Proofs.v', 'proofs/EditProofs.v'] if os.path.exists(os.path.join(COQ, f))]
+PROOF_FILES = [f for f in ['theories/Copy.v', 'proofs/C17Proofs.v', 'proofs/EditProofs.v'] if os.path.exists(os.path.join(COQ, f))]
 
 
 def mk_scn(sc):
@@ -139,6 +139,9 @@ def flat_steps(scn, case, inv, drop):
             post['iq'], post['eq'], tuple(sorted((f(k), tuple(sorted(f(x) for x in v))) for k, v in post['memory'])))
 
 
+COPY_CASES = []
+
+
 def plug(guest, mode='prefix'):
     """mode: 'prefix' (fresh names) | 'up' / 'down': every name is sent to the next / previous one of the guest's own sorted
     names (order-preserving, but the image overlaps the domain: the library may refuse such a renaming with
@@ -154,7 +157,19 @@ def plug(guest, mode='prefix'):
         ring = (names[1:] + ['~' + names[-1]]) if mode == 'up' else ([' ' + names[0]] + names[:-1])
         table = dict(zip(names, ring))
         f = lambda n: table.get(n, n)
-    host.copy_from_statechart(guest, source=guest.root, replace='plug', renaming_func=f)
+    pre_host, guest_value = sx.chart_value(host), sx.chart_value(guest)
+    rho = [(n, f(n)) for n in guest._states if n != guest.root]
+    case = dict(host=pre_host, guest=guest_value, source=guest.root, replace='plug', rho=rho, mode=mode)
+    COPY_CASES.append(case)
+    try:
+        host.copy_from_statechart(guest, source=guest.root, replace='plug', renaming_func=f)
+        case['res'] = 'EOk'
+    except Exception as e:  # noqa
+        from sismic.exceptions import StatechartError
+        case['res'] = 'EStatechartError' if isinstance(e, StatechartError) else ('EKeyError' if isinstance(e, KeyError) else 'EOther:%r' % (e,))
+        raise
+    finally:
+        case['post'] = sx.chart_value(host)        # (also after a refusal: Python edits the host in place)
     inv = {'plug': guest.root}
     for n in guest.states:
         if n != guest.root:
@@ -293,6 +308,51 @@ def main(tier, seed):
                 break
             if rg['out'][0] == 'err':
                 break
+    # ---- (c) the copy cases against the model of copy_from_statechart (theories/Copy.v)
+    import tocoq
+    from common import clist, coq_eval_files, cstr, gen_dir, parse_pairs
+    d = gen_dir(PROP)
+    files, shard = [], 40
+    usable = [c for c in COPY_CASES if not c['res'].startswith('EOther')]
+    for c in COPY_CASES:
+        if c['res'].startswith('EOther'):
+            n_viol += 1
+            v.violation(dict(property=PROP, clause='copy_from_statechart raised something else than StatechartError', error=c['res'],
+                             mode=c['mode'], renaming=c['rho']), tag='copy_other%d' % n_viol)
+    for s0 in range(0, len(usable), shard):
+        fn = '%s/copycases_%d.v' % (d, s0 // shard)
+        with open(fn, 'w') as f:
+            f.write('From Sismic Require Import Base Chart Edit Copy.\nOpen Scope string_scope.\nOpen Scope list_scope.\n')
+            f.write('Definition cases : list ccase := [\n')
+            f.write(';\n'.join('(mkCCase %s %s %s %s %s %s %s)' % (
+                tocoq.c_chart(c['host']), tocoq.c_chart(c['guest']), cstr(c['source']), cstr(c['replace']),
+                clist(c['rho'], lambda kv: '(%s, %s)' % (cstr(kv[0]), cstr(kv[1]))), c['res'], tocoq.c_chart(c['post']))
+                for c in usable[s0:s0 + shard]))
+            f.write('\n].\nEval vm_compute in (check_ccases cases).\n')
+        files.append(fn)
+    copy_bits = {}
+    for k, (fn, rc, out) in enumerate(coq_eval_files(PROP, files)):
+        if rc != 0:
+            n_viol += 1
+            v.violation(dict(property=PROP, broken='correspondence file did not evaluate', file=fn, log=out[-2000:]), tag='coq', no_input=True)
+            continue
+        for i, m in parse_pairs(out):
+            c = usable[k * shard + i]
+            cl = []
+            if m & 1:
+                cl.append('the outcome of copy_from_statechart (%s) is not the documented one' % c['res'])
+            if m & 2:
+                cl.append('the host after copy_from_statechart is not the host plus the renamed copy of the source sub-statechart (C17_copy_structure)')
+            if m & 4:
+                cl.append('copy_from_statechart succeeded on a sound host and guest and left an unsound host')
+            copy_bits[m] = copy_bits.get(m, 0) + 1
+            n_viol += 1
+            v.violation(dict(property=PROP, clause='; '.join(cl), mode=c['mode'], renaming=c['rho'], source=c['source'], replace=c['replace'],
+                             guest=c['guest'], host_before=c['host'], host_after=c['post'], outcome=c['res'],
+                             how_to_replay='the statecharts are given as plain data (states, parent, children, transitions in dictionary order)'),
+                        tag='copym%d' % (k * shard + i))
+    stats['copy_cases_against_the_model'] = len(usable)
+    stats['copy_cases_refused'] = sum(1 for c in usable if c['res'] != 'EOk')
     if not info.get('build_ok') or not info.get('ok') or info.get('forbidden_tokens'):
         if n_viol == 0:
             v.violation(dict(property=PROP, broken='proof obligations do not check', info=info), tag='proof', no_input=True)
